@@ -70,3 +70,4 @@ META = dict(
     technique="Lean 4 proof (one-step algebraic identity + induction through scan; generalize/linear_combination) "
               "+ differential correspondence + budget oracle on implementation outputs",
 )
+READY = True
